@@ -19,13 +19,24 @@ def _resolve(path):
     return getattr(importlib.import_module(mod), fn)
 
 
+MEM_LIMIT = 6 << 30     # address-space cap per worker: a runaway allocation becomes MemoryError
+
+
 def _worker(fn_path, items, conn):
     try:
+        try:
+            import resource
+            resource.setrlimit(resource.RLIMIT_AS, (MEM_LIMIT, MEM_LIMIT))
+        except Exception:  # noqa
+            pass
         fn = _resolve(fn_path)
         for idx, case in items:
             conn.send(("start", idx, None))
             try:
                 res = fn(case)
+            except MemoryError:
+                # the library call under test allocated without bound: same verdict as a hang
+                res = {"hang": True, "died": False, "oom": True}
             except BaseException as exc:  # driver bug: report, do not hide
                 res = {"driver_error": f"{type(exc).__name__}: {exc}",
                        "tb": traceback.format_exc()[-2000:]}
@@ -62,6 +73,7 @@ def run_cases(fn_path: str, cases: list, jobs: int = 12, timeout: float = 20.0) 
     for items in parts:
         workers.append(spawn(items))
     active = list(workers)
+    hangs = [0]
     while active:
         progressed = False
         for w in list(active):
@@ -84,7 +96,11 @@ def run_cases(fn_path: str, cases: list, jobs: int = 12, timeout: float = 20.0) 
                 if w in active:
                     _restart(w, results, active, spawn, died=True)
                 continue
-            if w in active and w["cur"] is not None and time.time() - w["t0"] > timeout:
+            # once several cases have hung the tree is broken anyway: do not spend the full budget on
+            # each of the remaining ones
+            budget = timeout if hangs[0] < 8 else min(timeout, 4.0)
+            if w in active and w["cur"] is not None and time.time() - w["t0"] > budget:
+                hangs[0] += 1
                 _restart(w, results, active, spawn, died=False)
         if not progressed:
             time.sleep(0.01)
